@@ -16,6 +16,11 @@ def _exact_cases():
         out.append(("outage", sockgen.outage_exact(n, ["conn", "idem"], [3, 3, 3], 24)))     # 'conn' entries expire on the way
         out.append(("outage", sockgen.outage_exact(n, ["idem"], [0, 0, 0, 0, 0, 0, 0, 0, 0, 241], 24)))
     out.append(("outage", [("send", 1, "ok", "idem"), ("open",), ("send", 2, "ok", "idem"), ("adv", 8)]))   # send before open
+    # the same through the second public entry point send_with_header() (ids 3, 7, 11, ... use it): before the first open, and
+    # after a close - refused with not-open, nothing held, nothing transmitted once the socket is opened
+    out.append(("outage", [("send", 3, "ok", "idem"), ("net", "accept"), ("open",), ("adv", 8), ("send", 7, "ok", "idem"), ("adv", 8)]))
+    out.append(("outage", [("net", "refuse"), ("open",), ("adv", 4), ("send", 3, "ok", "idem"), ("close",), ("adv", 4), ("send", 7, "ok", "idem"), ("send", 11, "ok", "conn"),
+                           ("net", "accept"), ("open",), ("adv", 24)]))
     # held messages flushed onto a congested link: the first write blocks in drain() while the clock moves on, so entries held
     # behind it expire DURING the flush - they must be discarded when their turn comes, not transmitted late
     for wait in (3, 5, 6, 7, 8, 9, 12, 40):
